@@ -31,6 +31,7 @@ type GenDesc struct {
 	B   []bool    `json:"b,omitempty"`  // flags
 	P   []float64 `json:"p,omitempty"`  // flattened point list (x y [z]) for paths / point sets
 	P2  []float64 `json:"p2,omitempty"` // second point list (stencil shapes)
+	M   string    `json:"mode,omitempty"` // how the point lists were drawn (documentation only; the lists are explicit)
 }
 
 var GenKinds = []string{"uvsphere", "uvsphere_unwelded", "hemisphere", "cube_welded", "cube_quads", "quad", "circle",
@@ -310,24 +311,111 @@ func wfDesc(d Desc) bool {
 	return true
 }
 
-func randPath(r *hx.Rng, n int) []float64 {
-	out := make([]float64, 0, 3*n)
-	x, y, z := 0.0, 0.0, 0.0
+// PathModes: legitimate but degenerate extrusion paths next to the generic ones.
+var PathModes = []string{"generic", "generic", "generic", "collinear", "one-collinear", "repeated-point", "closed", "backtrack", "axis"}
+
+// randPath draws n path points (x y z flattened) in the given mode:
+//   generic         consecutive points differ, no three consecutive points in line (height strictly increasing, random drift)
+//   collinear       all points on one line, equal or unequal steps
+//   one-collinear   generic, but one interior point lies exactly in line with its two neighbours
+//   repeated-point  generic, but one point occurs twice in a row (a zero-length segment)
+//   closed          generic, but the last point returns to the first
+//   backtrack       p, q, p, ...: a segment walked back exactly
+//   axis            along one coordinate axis (perpendicular helpers degenerate differently per axis)
+func randPath(r *hx.Rng, n int, mode string) []float64 {
+	pts := make([][3]float64, 0, n)
+	x, y, z := float64(r.Range(-2, 2)), float64(r.Range(-2, 2)), float64(r.Range(-2, 2))
 	for i := 0; i < n; i++ {
-		out = append(out, x, y, z)
+		pts = append(pts, [3]float64{x, y, z})
 		x += float64(r.Range(-2, 2))
-		y += float64(r.Range(1, 3)) // strictly increasing height: consecutive points never coincide
+		y += float64(r.Range(1, 3))
 		z += float64(r.Range(-2, 2))
+	}
+	switch mode {
+	case "collinear":
+		d := [3]float64{float64(r.Range(-2, 2)), float64(r.Range(1, 2)), float64(r.Range(-2, 2))}
+		t := 0.0
+		for i := range pts {
+			pts[i] = [3]float64{pts[0][0] + d[0]*t, pts[0][1] + d[1]*t, pts[0][2] + d[2]*t}
+			t += float64(r.Range(1, 2))
+		}
+	case "axis":
+		ax := r.Intn(3)
+		for i := range pts {
+			pts[i] = [3]float64{}
+			pts[i][ax] = float64(i * r.Range(1, 2))
+		}
+	case "one-collinear":
+		if n >= 3 {
+			k := r.Range(1, n-2)
+			for c := 0; c < 3; c++ {
+				pts[k][c] = (pts[k-1][c] + pts[k+1][c]) / 2 // exact: integers halved
+			}
+		}
+	case "repeated-point":
+		if n >= 2 {
+			k := r.Range(1, n-1)
+			pts[k] = pts[k-1]
+		}
+	case "closed":
+		if n >= 3 {
+			pts[n-1] = pts[0]
+		}
+	case "backtrack":
+		for i := 2; i < n; i++ {
+			pts[i] = pts[i-2]
+		}
+	}
+	out := make([]float64, 0, 3*n)
+	for _, p := range pts {
+		out = append(out, p[0], p[1], p[2])
 	}
 	return out
 }
 
+// randShape draws a stencil of n 2-D points: generic, or with repeated / collinear points.
 func randShape(r *hx.Rng, n int) []float64 {
 	out := make([]float64, 0, 2*n)
+	mode := r.Intn(4)
 	for i := 0; i < n; i++ {
-		out = append(out, float64(r.Range(-4, 4))+float64(i)*0.01, float64(r.Range(-4, 4)))
+		px, py := float64(r.Range(-4, 4))+float64(i)*0.01, float64(r.Range(-4, 4))
+		switch {
+		case mode == 1 && i > 0 && r.Chance(1, 3): // a repeated stencil point
+			px, py = out[2*(i-1)], out[2*(i-1)+1]
+		case mode == 2: // all on one line
+			px, py = float64(i), float64(2*i)
+		}
+		out = append(out, px, py)
 	}
 	return out
+}
+
+// randPoints2 draws the input of the triangulation: generic position, or with exactly repeated
+// points, exactly collinear runs, points on a lattice (cocircular quadruples).
+func randPoints2(r *hx.Rng, n int) (pts []float64, mode string) {
+	mode = hx.Pick(r, []string{"generic", "generic", "duplicates", "duplicates", "collinear-run", "lattice", "all-equal"})
+	pts = make([]float64, 0, 2*n)
+	for i := 0; i < n; i++ {
+		// generic position: a tiny index-dependent offset avoids exactly collinear / cocircular inputs
+		px, py := float64(r.Range(-8, 8))+float64(i)*0.013, float64(r.Range(-8, 8))+float64(i*i)*0.0007
+		switch mode {
+		case "duplicates":
+			if i > 0 && r.Chance(1, 3) {
+				k := r.Intn(i)
+				px, py = pts[2*k], pts[2*k+1]
+			}
+		case "collinear-run":
+			if i%2 == 0 {
+				px, py = float64(i), float64(i)*0.5
+			}
+		case "lattice":
+			px, py = float64(r.Range(-3, 3)), float64(r.Range(-3, 3))
+		case "all-equal":
+			px, py = 1, 2
+		}
+		pts = append(pts, px, py)
+	}
+	return pts, mode
 }
 
 // RandomGen draws a parameterisation: mostly small accepted values (0..12), degenerate and
@@ -372,12 +460,15 @@ func RandomGen(r *hx.Rng, big bool) GenDesc {
 		g.I = []int{small()}
 		g.F = []float64{float64(r.Range(1, 2))}
 		g.B = []bool{r.Bool()}
-		g.P = randPath(r, r.Range(0, 6))
+		g.M = hx.Pick(r, PathModes)
+		g.P = randPath(r, r.Range(0, 6), g.M)
 	case "extrude_line":
 		g.F = []float64{float64(r.Range(0, 2)), float64(r.Range(0, 1))}
-		g.P = randPath(r, r.Range(0, 7))
+		g.M = hx.Pick(r, PathModes)
+		g.P = randPath(r, r.Range(0, 7), g.M)
 	case "extrude_shape", "extrude_closed_shape":
-		g.P = randPath(r, r.Range(0, 6))
+		g.M = hx.Pick(r, PathModes)
+		g.P = randPath(r, r.Range(0, 6), g.M)
 		g.P2 = randShape(r, r.Range(0, 7))
 	case "repeat_circle", "repeat_line", "repeat_fibonacci":
 		g.I = []int{r.Range(-1, 7), r.Intn(5)}
@@ -393,12 +484,7 @@ func RandomGen(r *hx.Rng, big bool) GenDesc {
 		g.I = []int{hx.Pick(r, []int{1, 1, 2, 2, 2, 3}), mode}
 		g.F = []float64{hx.Pick(r, []float64{0.4, 0.7, 1, 1.3}), hx.Pick(r, []float64{0, 0.3, 1}), hx.Pick(r, []float64{0, 0, 0.1, -0.1, 5})}
 	case "bowyer_watson":
-		n := r.Range(0, 12)
-		g.P2 = make([]float64, 0, 2*n)
-		for i := 0; i < n; i++ {
-			// generic position: a tiny index-dependent offset avoids exactly collinear / cocircular inputs
-			g.P2 = append(g.P2, float64(r.Range(-8, 8))+float64(i)*0.013, float64(r.Range(-8, 8))+float64(i*i)*0.0007)
-		}
+		g.P2, g.M = randPoints2(r, r.Range(0, 12))
 	}
 	return g
 }
